@@ -336,6 +336,8 @@ struct Net {
 	reest_seen: HashSet<(usize, usize)>,
 	/// how the next tampered commitment_signed is forged: (mode, index) -- see op `tamper_cs`
 	tamper_cs: Option<(u64, usize)>,
+	/// the next update_add_htlc delivered carries an onion the receiver cannot process (see op `corrupt_onion`)
+	corrupt_onion: Option<u64>,
 	/// nodes whose user currently refuses payment events (handler returns ReplayEvent)
 	hold_events: Vec<bool>,
 	defer_drain: bool,
@@ -393,7 +395,7 @@ impl Net {
 
 	fn describe(&mut self, w: &Wire) -> Value {
 		match w {
-			Wire::Add(m) => json!({"kind":"update_add_htlc","chan":self.chan(&m.channel_id),"id":m.htlc_id,"amt":m.amount_msat,"hash":self.hash(&m.payment_hash.0),"cltv":m.cltv_expiry}),
+			Wire::Add(m) => json!({"kind":"update_add_htlc","chan":self.chan(&m.channel_id),"id":m.htlc_id,"amt":m.amount_msat,"hash":self.hash(&m.payment_hash.0),"cltv":m.cltv_expiry,"bad_onion":false}),
 			Wire::Fulfill(m) => {
 				let h = bitcoin::hashes::sha256::Hash::hash(&m.payment_preimage.0).to_byte_array();
 				json!({"kind":"update_fulfill_htlc","chan":self.chan(&m.channel_id),"id":m.htlc_id,"hash":self.hash(&h)})
@@ -863,6 +865,19 @@ impl Net {
 				d["forged"] = json!(what);
 			}
 		}
+		if let Wire::Add(ref mut m) = w {
+			if let Some(mode) = self.corrupt_onion.take() {
+				// the sender's onion is not what the receiver can peel: its HMAC, its payload, its version or its
+				// ephemeral key is off (the receiver answers update_fail_malformed_htlc / update_fail_htlc; nothing else changes)
+				match mode % 4 {
+					0 => { m.onion_routing_packet.hmac[3] ^= 0x20; },
+					1 => { m.onion_routing_packet.hop_data[17] ^= 0x01; },
+					2 => { m.onion_routing_packet.version = 1; },
+					_ => { m.onion_routing_packet.public_key = Err(bitcoin::secp256k1::Error::InvalidPublicKey); },
+				}
+				d["bad_onion"] = json!(true);
+			}
+		}
 		d["ev"] = json!("deliver");
 		d["from"] = json!(from);
 		d["to"] = json!(to);
@@ -1168,6 +1183,16 @@ impl Net {
 				let pos = self.queues.get(&(f, t)).and_then(|q| q.iter().position(|w| matches!(w, Wire::RAA(_))));
 				match pos {
 					Some(p) => { for _ in 0..p { self.deliver_one(f, t); } did = self.deliver_ext(f, t, true); },
+					None => { did = false; },
+				}
+			},
+			"corrupt_onion" => {
+				// what precedes the first update_add_htlc in the queue is delivered, then that add with a broken onion
+				let f = op["from"].as_u64().unwrap() as usize;
+				let t = op["to"].as_u64().unwrap() as usize;
+				let pos = self.queues.get(&(f, t)).and_then(|q| q.iter().position(|w| matches!(w, Wire::Add(_))));
+				match pos {
+					Some(p) => { for _ in 0..p { self.deliver_one(f, t); } self.corrupt_onion = Some(op["mode"].as_u64().unwrap_or(0)); did = self.deliver_one(f, t); self.corrupt_onion = None; },
 					None => { did = false; },
 				}
 			},
@@ -1825,7 +1850,7 @@ fn build_net(run: u64, cfg: &Value, log: &Log) -> Net {
 	let mut net = Net {
 		nodes, cfgs, persisters, queues: HashMap::new(), connected, log: log.clone(), chans, hashes, points: Vec::new(),
 		pays: Vec::new(), scids, chan_ids, run, feerate: vec![feerate0; n], executed: 0, skipped: 0,
-		funding_txids: Vec::new(), extra_funding: Vec::new(), extra_broadcast: Vec::new(), mgr_snaps: vec![Vec::new(); n], mgr_clean: vec![Vec::new(); n], mgr_msgs: vec![Vec::new(); n], msgs_emitted: vec![0; n], mgr_evheld: vec![Vec::new(); n], mgr_writes: vec![Vec::new(); n], dirty: vec![HashSet::new(); n], mgr_held: vec![Vec::new(); n], reest_seen: HashSet::new(), tamper_cs: None, hold_events: vec![false; n], defer_drain: false, intercepts: Vec::new(), intercept_next: HashMap::new(), batch_wait: None, hold_failed_only: vec![false; n], refused_logged: HashSet::new(), settling: false, sweepers: (0..n).map(|_| None).collect(), mempool: Vec::new(), spent: HashSet::new(), confirmed: HashSet::new(), saved_idx: vec![None; n], node_cfgs, txids, edges: edges.clone(),
+		funding_txids: Vec::new(), extra_funding: Vec::new(), extra_broadcast: Vec::new(), mgr_snaps: vec![Vec::new(); n], mgr_clean: vec![Vec::new(); n], mgr_msgs: vec![Vec::new(); n], msgs_emitted: vec![0; n], mgr_evheld: vec![Vec::new(); n], mgr_writes: vec![Vec::new(); n], dirty: vec![HashSet::new(); n], mgr_held: vec![Vec::new(); n], reest_seen: HashSet::new(), tamper_cs: None, corrupt_onion: None, hold_events: vec![false; n], defer_drain: false, intercepts: Vec::new(), intercept_next: HashMap::new(), batch_wait: None, hold_failed_only: vec![false; n], refused_logged: HashSet::new(), settling: false, sweepers: (0..n).map(|_| None).collect(), mempool: Vec::new(), spent: HashSet::new(), confirmed: HashSet::new(), saved_idx: vec![None; n], node_cfgs, txids, edges: edges.clone(),
 	};
 	for i in 0..n {
 		let _ = net.nodes[i].node.get_and_clear_needs_persistence();
@@ -2013,6 +2038,10 @@ fn random_script(rng: &mut StdRng, n: usize, profile: &str) -> Value {
 		} else if r < 94 && profile != "nodisc" {
 			let a = rng.gen_range(0..n - 1);
 			ops.push(json!({"op":"reconnect","a":a,"b":a+1}));
+		} else if r == 99 && profile != "nodisc" && profile != "limits" {
+			let a = rng.gen_range(0..n - 1);
+			let (f, t) = if rng.gen_bool(0.5) { (a, a + 1) } else { (a + 1, a) };
+			ops.push(json!({"op":"corrupt_onion","from":f,"to":t,"mode":rng.gen_range(0..4)}));
 		} else if r < 97 && profile == "tamper" {
 			let a = rng.gen_range(0..n - 1);
 			let (f, t) = if rng.gen_bool(0.5) { (a, a + 1) } else { (a + 1, a) };
